@@ -6,7 +6,8 @@
    tied to the implementation bit for bit by the correspondence run, not by a theorem. *)
 From Coq Require Import NArith ZArith List Bool.
 From SF Require Import Base.Outcome Base.Bytes Base.GeomAST Base.Varint Model.TWKB Model.TWKBQuant
-                       Proofs.TWKB_proofs Proofs.TWKBQuant_proofs.
+                       Proofs.TWKB_proofs Proofs.TWKBQuant_proofs Proofs.TWKBQuant_grid.
+From Coq Require Import QArith.
 Import ListNotations.
 
 (* ------------------------------------------------------------------ varints *)
@@ -134,6 +135,53 @@ Theorem unmarshal_f_alloc_linear : forall bs : list N,
 Proof. exact unmarshal_f_alloc_linear_lemma. Qed.
 Print Assumptions unmarshal_f_alloc_linear.
 
+(* ------------------------------------------------------------------ quantisation layer *)
+(* Model/TWKBQuant.v mirrors the code: quant p x = int64(math.Round(fl(x * 10^p))) (fl(x / 10^-p) for
+   p < 0, fix F71) and dequant p k = fl(float64(k) / 10^p) (fl(float64(k) * 10^-p) for p < 0), where fl
+   is round-to-nearest-even to binary64 defined on integers (rne). dval m e = m * 2^e and
+   scaleQ p = 10^p are rationals; eps53 = 2^-53. *)
+
+(* one correctly rounded operation has relative error at most 2^-53 (results in the normal range) *)
+Theorem rne_relative_error : forall (n d m e : Z),
+  (0 < n)%Z -> (0 < d)%Z -> (d <= n * 2 ^ 1000)%Z -> rne n d = Some (m, e) ->
+  (- (qfrac n d * eps53) <= dval m e - qfrac n d <= qfrac n d * eps53)%Q /\ (p52 <= m < p53)%Z.
+Proof.
+  intros n d m e Hn Hd Hnd H. rewrite rne_unfold in H. destruct (rne_core n d) as [m' e'] eqn:E.
+  destruct (971 <? e')%Z; [discriminate|]. inversion H; subst.
+  destruct (rne_core_Q n d m e Hn Hd Hnd E) as [H1 [H2 _]]. split; assumption.
+Qed.
+Print Assumptions rne_relative_error.
+
+(* "rounded to p places": the integer the writer derives from a finite double x = (-1)^s m 2^e is
+   within 1/2 of the ROUNDED product fl(|x| 10^p), which is within 2^-53 |x| 10^p of the exact
+   product; so | |k| - |x| 10^p | <= 1/2 + 2^-53 |x| 10^p, and k has the sign of x. (e >= -970 only
+   excludes |x| < 2^-900, where the product would be subnormal.) *)
+Theorem quant_spec : forall (p : Z) (bits : N) (s : bool) (m e k : Z),
+  fdec bits = Some (s, m, e) -> (-970 <= e)%Z -> (-8 <= p <= 8)%Z -> quant p bits = Ok k ->
+  let t := (dval m e * scaleQ p)%Q in
+  let sk := inject_Z (if s then - k else k) in
+  (- (1 # 2) - t * eps53 <= sk - t <= (1 # 2) + t * eps53)%Q.
+Proof. exact quant_spec_lemma. Qed.
+Print Assumptions quant_spec.
+
+(* the decoded double is k / 10^p up to ONE rounding: float64(k) is exact, the division is correctly
+   rounded *)
+Theorem dequant_spec : forall (p k : Z),
+  (-8 <= p <= 7)%Z -> (0 < Z.abs k < 2 ^ 40)%Z ->
+  exists m e, fdec (dequant p k) = Some ((k <? 0)%Z, m, e) /\
+    let t := (inject_Z (Z.abs k) / scaleQ p)%Q in
+    (- (t * eps53) <= dval m e - t <= t * eps53)%Q.
+Proof. exact dequant_spec_lemma. Qed.
+Print Assumptions dequant_spec.
+
+(* "exactly g when g already lies on the grid": the grid points of precision p, as the parser
+   produces them, are the doubles dequant p k; encoding such a double gives back exactly k, for
+   every |k| < 2^40 and every admissible precision (so decode(encode(decode(b))) = decode(b)) *)
+Theorem quant_dequant_grid : forall (p k : Z),
+  (-8 <= p <= 7)%Z -> (Z.abs k < 2 ^ 40)%Z -> quant p (dequant p k) = Ok k.
+Proof. exact quant_dequant_lemma. Qed.
+Print Assumptions quant_dequant_grid.
+
 (* ------------------------------------------------------------------ examples *)
 Local Open Scope Z_scope.
 Definition v4 x y z m : vtx Z := Build_vtx x y z m.
@@ -227,4 +275,21 @@ Definition f73_geom : zgeom :=
 Example f73_closing_z :
   wf_twkb o0 f73_geom = false /\ wf_twkb_noring o0 f73_geom = false /\ wf_twkb_xyring o0 f73_geom = true /\
   match tmarshal o0 f73_geom with Ok b => twkb_ok o0 f73_geom b | _ => true end = false.
+Proof. vm_compute. repeat split; reflexivity. Qed.
+
+(* quantisation layer: instances by computation, and a bound on |k| is necessary (a double cannot
+   tell 2^62 + 1 from 2^62; the proved bound 2^40 is the property's, not the tight one) *)
+Example grid_instances :
+  quant 7 (dequant 7 1099511627775) = Ok 1099511627775 /\
+  quant (-8) (dequant (-8) (-1099511627775)) = Ok (-1099511627775) /\
+  quant 2 (dequant 2 314) = Ok 314.
+Proof. vm_compute. repeat split; reflexivity. Qed.
+Example grid_needs_a_bound :
+  quant 0 (dequant 0 4611686018427387905) = Ok 4611686018427387904.
+Proof. vm_compute. reflexivity. Qed.
+(* 0.1 = 0x3FB999999999999A at precision 1 is the integer 1; 0.25 at precision 1 is a tie and goes
+   away from zero *)
+Example quant_examples :
+  quant 1 4591870180066957722%N = Ok 1 /\ quant 1 4598175219545276416%N = Ok 3 /\
+  quant 1 13821547256400052224%N = Ok (-3).
 Proof. vm_compute. repeat split; reflexivity. Qed.
